@@ -919,3 +919,18 @@ def restart_with_new_bus():
     main = [['root', 'A', 'P', 'P1'], ['sleep', 't1'], ['stop', 'A', {'clear': True}],
             ['new_bus', 'B', [['X', 'hX', [['ret', 'x']]]]], ['root', 'B', 'X', 'X1'], ['sleep', '2'], ['obs_all', 'end']]
     return dict(buses=['A'], order=['A', 'B'], reals={'d1': ['1/5', '1'], 'd2': ['0', '1/2'], 't1': ['0', '1/10']}, handlers=handlers, main=main, horizon=8)
+
+
+
+def cross_bus_await_into_sync_only_event(kmax=8):
+    """both buses warm.  A handler of B (running since t=0) wakes at d1, dispatches W on A and awaits it; at the very same instant,
+    k loop iterations later (k chosen by the solver), an event R that has only synchronous handlers (a relay hop) is dispatched on
+    A.  A is a serial bus: R's handlers and W's handlers must not interleave."""
+    handlers = [['B', 'P', 'hP', [['sleep', 'd1'], ['dispawait', 'A', 'C', 'C1'], ['ret', 'p']]], ['A', 'C', 'hW', [['sleep', 'd2'], ['ret', 'w']]],
+                ['A', 'G', 'hR1', [['ret', 'r1']], {'sync': True}], ['A', 'G', 'hR2', [['ret', 'r2']], {'sync': True}],
+                ['A', 'G', 'hR3', [['ret', 'r3']], {'sync': True}], ['A', 'G', 'hR4', [['ret', 'r4']], {'sync': True}],
+                ['A', 'X', 'hXA', [['ret', 'x']]], ['B', 'X', 'hXB', [['ret', 'x']]]]
+    main = [['root', 'A', 'X', 'XA0'], ['idle', 'A'], ['root', 'B', 'X', 'XB0'], ['idle', 'B'], ['root', 'B', 'P', 'P1'], ['await', 'P1'],
+            ['idle', 'A'], ['idle', 'B'], ['obs_all', 'end']]
+    return dict(buses=['A', 'B'], order=['A', 'B'], reals={'d1': ['1/100', '3/10'], 'd2': ['0', '1/10']}, ints={'k': [0, kmax]}, handlers=handlers, main=main,
+                actors={'r': [['sleep', 'd1'], ['sleep_steps', 'k'], ['root', 'A', 'G', 'R1']]}, horizon=6)
